@@ -564,7 +564,7 @@ def robust_records(job, nid):
             located = bool(re.search(r"Line\s+\d+", out))      # "one-line-located": the message names the line
             nid += 1
             recs.append({"t": "robust", "id": nid, "file": item["name"], "how": how, "mode": "fix" if k % 2 else "check", "outcome": "hang" if o["status"] == "hang" else ("crash" if o["status"].startswith("crash") else ("rejected" if o["rejected"] else "accepted")),
-                         "status": o["status"], "located": bool(located), "exit": bool(o["exit"]), "rule_crashes": [hooks_name(c) for c in o["crashes"]][:3], "site": site_of(o.get("tb", "")), "tail": out[-200:], "tb": o.get("tb", "")[-300:]})
+                         "status": o["status"], "located": bool(located), "exit": bool(o["exit"]), "rule_crashes": [hooks_name(c) for c in o["crashes"]][:3], "site": ("vhdlFile/classifier" if o["status"] == "hang" and "_processFile" in o.get("tb", "") else site_of(o.get("tb", ""))), "tail": out[-200:], "tb": o.get("tb", "")[-300:]})
     return recs
 
 
